@@ -163,6 +163,31 @@ def step_checks(agg, obj, depth, out):
     r = attempt("t>>t", case, lambda: t >> t)
     if r is not None:
         ok("table.rshift.table", case, N + N, vnames(r))
+    # in-place writes into a table keep every stored name: cell, row, column, and region assignment FROM A TABLE WITH OTHER NAMES
+    # (all rows or some rows; same dtypes), also when the region is the whole table
+    def fresh_copy():
+        return Table([Vector(list(c._underlying), name=c._name) for c in t._underlying])
+    W = len(N)
+    src_names = ["zz", "yy", "xx", "ww"][:W]
+    def src(nr, ncols=W):
+        return Table([Vector(list(t._underlying[j]._underlying[:nr]), name=src_names[j]) for j in range(ncols)])
+    writes = [("cell", lambda u: u.__setitem__((0, 0), u._underlying[0]._underlying[0])),
+              ("row", lambda u: u.__setitem__(0, [c._underlying[0] for c in u._underlying])),
+              ("column-list", lambda u: u.__setitem__((slice(None), 0), list(u._underlying[0]._underlying))),
+              ("column-vector", lambda u: u.__setitem__((slice(None), 0), Vector(list(u._underlying[0]._underlying), name="zz"))),
+              ("region-all-rows-all-columns", lambda u: u.__setitem__((slice(None), slice(None)), src(nrows))),
+              ("region-all-rows-first-column", lambda u: u.__setitem__((slice(None), slice(0, 1)), src(nrows, 1))),
+              ("region-explicit-all-rows", lambda u: u.__setitem__((slice(0, nrows), slice(0, W)), src(nrows))),
+              ("region-some-rows", lambda u: u.__setitem__((slice(0, 1), slice(0, W)), src(1))),
+              ("setattr-named-vector", lambda u: setattr(u, next(iter(u._current_column_map())), Vector(list(u._underlying[u._current_column_map()[next(iter(u._current_column_map()))]]._underlying), name="zz")))]
+    for lab, wf in writes:
+        u = fresh_copy()
+        try:
+            wf(u)
+        except Exception:
+            agg.skipped["operation-raises"] += 1
+            continue
+        ok(f"table.write.{lab}", dict(case, op=lab, source_names=src_names), N, vnames(u))
     # arithmetic
     for opn, op in (("add", operator.add), ("mul", operator.mul), ("truediv", operator.truediv), ("sub", operator.sub), ("floordiv", operator.floordiv),
                     ("mod", operator.mod), ("pow", operator.pow)):
